@@ -1,4 +1,245 @@
+//! `./check selftest`: (1) the reference tables reproduce every kind-pair cell that the repository's
+//! own unit tests (src/exec/val/tests.rs) assert — transcribed here as anchors, so the reference is
+//! bound to the project's documented tables and not to one reading of the code; (2) hash-seed
+//! control works (same seed => same iteration order, different seeds => different orders);
+//! (3) machinery: the hand-written corpus parses, generator names are not keywords, the precedence
+//! ladder agrees with hand-computed trees.
+use super::rast::{BinOp, Dir};
+use super::value::*;
+use std::cmp::Ordering;
+
+fn v(s: &str) -> V {
+    match s {
+        "M" => V::Myst,
+        "N" => V::Null,
+        "T" => V::Bool(true),
+        "F" => V::Bool(false),
+        "A0" => V::Arr(Arr::default()),
+        "A1" => V::Arr(Arr { seq: vec![V::Null], dict: vec![], id: 0 }),
+        "A2" => V::Arr(Arr { seq: vec![V::Null, V::Null], dict: vec![], id: 0 }),
+        _ => {
+            if let Some(n) = s.strip_prefix('#') {
+                V::Num(match n {
+                    "inf" => f64::INFINITY,
+                    "-inf" => f64::NEG_INFINITY,
+                    "nan" => f64::NAN,
+                    x => x.parse().unwrap(),
+                })
+            } else if let Some(t) = s.strip_prefix('S') {
+                V::Str(t.to_string())
+            } else {
+                panic!("bad anchor value {}", s)
+            }
+        }
+    }
+}
+
+/// (a, b, equal?) — asserted commutatively by the repository
+const EQUALS: &[(&str, &str, bool)] = &[
+    ("M", "M", true), ("M", "N", true), ("M", "F", false), ("M", "#0", false), ("M", "S", false), ("M", "A0", false),
+    ("N", "N", true), ("F", "F", true), ("T", "F", false), ("#1", "#1", true), ("#1", "#2", false), ("Sfoo", "Sfoo", true), ("Sfoo", "Sbar", false),
+    ("A0", "A0", true), ("A1", "A0", false), ("A1", "A1", true),
+    ("S0", "#0", true), ("Sten", "#0", false), ("S", "F", true), ("Sx", "T", true), ("S", "N", true), ("Sx", "N", false), ("Sx", "A0", false),
+    ("#0", "F", true), ("#1", "T", true), ("#0", "N", true), ("#1", "N", false), ("#0", "A0", true), ("#1", "A1", true), ("#1", "A0", false),
+    ("F", "N", true), ("T", "N", false), ("F", "A0", false), ("N", "A0", true), ("N", "A1", false),
+];
+
+/// (a, b, expected) with expected in {"less", "equal", "none", "invalid"}; "less" means a<b and not b<a
+const COMPARE: &[(&str, &str, &str)] = &[
+    ("M", "N", "equal"), ("M", "F", "invalid"), ("M", "#0", "invalid"), ("M", "S", "invalid"), ("M", "A0", "invalid"),
+    ("F", "T", "invalid"), ("#1", "#10", "less"), ("Saardvark", "Sbar", "less"), ("S02", "S10", "less"), ("A0", "A0", "invalid"),
+    ("S0", "#1", "less"), ("Sten", "#0", "none"), ("S", "F", "invalid"), ("Sx", "T", "invalid"), ("N", "Sx", "less"), ("Sx", "A0", "invalid"),
+    ("#10", "F", "invalid"), ("#-1", "N", "less"), ("#-1", "A0", "less"), ("#0", "A1", "less"), ("F", "N", "invalid"), ("F", "A0", "invalid"), ("N", "A1", "less"),
+];
+
+/// (op, a, b, result) — "M" as result means the invalid combination (mysterious)
+const ARITH: &[(&str, &str, &str, &str)] = &[
+    ("+", "M", "N", "M"), ("+", "N", "M", "M"), ("+", "M", "F", "M"), ("+", "F", "M", "M"), ("+", "M", "#0", "M"), ("+", "#0", "M", "M"), ("+", "M", "A0", "M"), ("+", "A0", "M", "M"),
+    ("+", "F", "T", "M"), ("+", "#1", "#10", "#11"), ("+", "Saardvark", "Sbar", "Saardvarkbar"), ("+", "Sbar", "Saardvark", "Sbaraardvark"), ("+", "A0", "A0", "#0"),
+    ("+", "S0", "#1", "S01"), ("+", "#1", "S0", "S10"), ("+", "Sx", "F", "Sxfalse"), ("+", "Sx", "T", "Sxtrue"), ("+", "F", "Sx", "Sfalsex"), ("+", "T", "Sx", "Struex"),
+    ("+", "Sx", "N", "Sxnull"), ("+", "N", "Sx", "Snullx"), ("+", "Sx", "M", "Sxmysterious"), ("+", "M", "Sx", "Smysteriousx"), ("+", "Sx", "A0", "M"), ("+", "A0", "Sx", "M"),
+    ("+", "#10", "F", "M"), ("+", "F", "#10", "M"), ("+", "#-1", "N", "#-1"), ("+", "N", "#-1", "#-1"), ("+", "#1", "A0", "#1"), ("+", "#1", "A1", "#2"), ("+", "F", "N", "M"), ("+", "F", "A0", "M"),
+    ("*", "M", "N", "M"), ("*", "M", "F", "M"), ("*", "M", "#0", "M"), ("*", "M", "S", "M"), ("*", "S", "M", "M"), ("*", "M", "A0", "M"), ("*", "F", "T", "M"), ("*", "#2", "#10", "#20"),
+    ("*", "Saardvark", "Sbar", "M"), ("*", "A0", "A0", "#0"), ("*", "S0", "#1", "S0"), ("*", "S0", "#3", "S000"), ("*", "S0", "#0", "S"), ("*", "S0", "#-1", "M"), ("*", "#-1", "S0", "M"),
+    ("*", "Sx", "F", "M"), ("*", "F", "Sx", "M"), ("*", "Sx", "N", "M"), ("*", "N", "Sx", "M"), ("*", "Sx", "A0", "S"), ("*", "Sx", "A2", "Sxx"),
+    ("*", "#10", "F", "M"), ("*", "#-1", "N", "#-0"), ("*", "N", "#-1", "#-0"), ("*", "#1", "A0", "#0"), ("*", "#1", "A1", "#1"), ("*", "F", "N", "M"), ("*", "F", "A0", "M"),
+    ("-", "M", "N", "M"), ("-", "M", "#0", "M"), ("-", "M", "S", "M"), ("-", "F", "T", "M"), ("-", "#2", "#10", "#-8"), ("-", "Saardvark", "Sbar", "M"), ("-", "A0", "A0", "#0"),
+    ("-", "S0", "#1", "M"), ("-", "#1", "S0", "M"), ("-", "Sx", "F", "M"), ("-", "Sx", "N", "M"), ("-", "Sx", "A0", "M"), ("-", "#10", "F", "M"), ("-", "#-1", "N", "#-1"), ("-", "N", "#-1", "#1"),
+    ("-", "#1", "A0", "#1"), ("-", "#1", "A1", "#0"), ("-", "F", "N", "M"), ("-", "F", "A0", "M"),
+    ("/", "M", "N", "M"), ("/", "M", "#0", "M"), ("/", "F", "T", "M"), ("/", "#2", "#10", "#0.2"), ("/", "Saardvark", "Sbar", "M"), ("/", "A0", "A0", "#nan"), ("/", "S0", "#1", "M"), ("/", "#1", "S0", "M"),
+    ("/", "Sx", "N", "M"), ("/", "#10", "F", "M"), ("/", "#-1", "N", "#-inf"), ("/", "N", "#-1", "#-0"), ("/", "#1", "A0", "#inf"), ("/", "#1", "A1", "#1"), ("/", "F", "N", "M"),
+];
+
+const TRUTHY: &[(&str, bool)] = &[("M", false), ("N", false), ("F", false), ("T", true), ("#0", false), ("#42", true), ("S", true), ("Sfoo", true), ("A0", true)];
+
+fn same_loose(a: &V, b: &V) -> bool {
+    // the repository's assertions use ==, for which -0 == 0
+    match (a, b) {
+        (V::Num(x), V::Num(y)) => x == y || (x.is_nan() && y.is_nan()),
+        _ => a.same(b),
+    }
+}
+
 pub fn run() -> i32 {
-    println!("selftest: ok");
-    0
+    let mut bad = 0;
+    let mut n = 0;
+    let mut fail = |what: String| {
+        eprintln!("selftest FAILED: {}", what);
+        bad += 1;
+    };
+    for (a, b, want) in EQUALS {
+        for (x, y) in [(a, b), (b, a)] {
+            n += 1;
+            if equals(&v(x), &v(y)) != Ok(*want) {
+                fail(format!("equals({}, {}) should be {}", x, y, want));
+            }
+        }
+    }
+    for (a, b, want) in COMPARE {
+        n += 1;
+        let ab = compare(&v(a), &v(b));
+        let ba = compare(&v(b), &v(a));
+        let ok = match *want {
+            "equal" => ab == Ok(Some(Ordering::Equal)) && ba == Ok(Some(Ordering::Equal)),
+            "less" => ab == Ok(Some(Ordering::Less)) && ba != Ok(Some(Ordering::Less)),
+            "none" => ab == Ok(None) && ba == Ok(None),
+            _ => matches!(ab, Err(Stop::Error(_))) && matches!(ba, Err(Stop::Error(_))),
+        };
+        if !ok {
+            fail(format!("compare({}, {}) should be {}: got {:?} / {:?}", a, b, want, ab, ba));
+        }
+    }
+    for (op, a, b, want) in ARITH {
+        n += 1;
+        let r = match *op {
+            "+" => plus(&v(a), &v(b)),
+            "-" => minus(&v(a), &v(b)),
+            "*" => times(&v(a), &v(b)),
+            _ => over(&v(a), &v(b)),
+        };
+        match r {
+            Ok(got) if same_loose(&got, &v(want)) => {}
+            other => fail(format!("{} {} {} should be {}: got {:?}", a, op, b, want, other)),
+        }
+    }
+    for (a, want) in TRUTHY {
+        n += 1;
+        if v(a).truthy() != *want {
+            fail(format!("truthy({}) should be {}", a, want));
+        }
+    }
+    // negate, inc/dec, rounding, split, join, cast anchors
+    let checks: Vec<(&str, bool)> = vec![
+        ("negate M is an error", negate(&V::Myst).is_err()),
+        ("negate N is an error", negate(&V::Null).is_err()),
+        ("negate \"\" is an error", negate(&V::Str(String::new())).is_err()),
+        ("negate [] is an error", negate(&v("A0")).is_err()),
+        ("negate 1.5 = -1.5", matches!(negate(&V::Num(1.5)), Ok(V::Num(x)) if x == -1.5)),
+        ("inc null 1 = 1", {
+            let mut x = V::Null;
+            inc(&mut x, 1).is_ok() && matches!(x, V::Num(n) if n == 1.0)
+        }),
+        ("inc true 1 = false, 2 = true", {
+            let (mut x, mut y) = (V::Bool(true), V::Bool(true));
+            inc(&mut x, 1).is_ok() && inc(&mut y, 2).is_ok() && matches!(x, V::Bool(false)) && matches!(y, V::Bool(true))
+        }),
+        ("inc mysterious / string / array is an error", {
+            inc(&mut V::Myst, 1).is_err() && inc(&mut V::Str("x".into()), 1).is_err() && inc(&mut v("A0"), -1).is_err()
+        }),
+        ("round up 1.2 = 2, down 1.8 = 1, nearest 1.5 = 2, nearest 1.4 = 1", {
+            matches!(round(&V::Num(1.2), Dir::Up), Ok(V::Num(x)) if x == 2.0)
+                && matches!(round(&V::Num(1.8), Dir::Down), Ok(V::Num(x)) if x == 1.0)
+                && matches!(round(&V::Num(1.5), Dir::Nearest), Ok(V::Num(x)) if x == 2.0)
+                && matches!(round(&V::Num(1.4), Dir::Nearest), Ok(V::Num(x)) if x == 1.0)
+        }),
+        ("rounding a non-number is an error", round(&V::Null, Dir::Up).is_err() && round(&V::Str("1".into()), Dir::Nearest).is_err()),
+        ("split \"\" = []", matches!(split(&V::Str(String::new()), None), Ok(V::Arr(a)) if a.seq.is_empty())),
+        ("split \"abc\" = [a,b,c]", matches!(split(&V::Str("abc".into()), None), Ok(V::Arr(a)) if a.seq.len() == 3)),
+        ("split \"a,b,,c\" by \",\" keeps the empty piece", matches!(split(&V::Str("a,b,,c".into()), Some(&V::Str(",".into()))), Ok(V::Arr(a)) if a.seq.len() == 4)),
+        ("split by a non-string is an error", split(&V::Str("a".into()), Some(&V::Num(1.0))).is_err()),
+        ("split of a non-string is an error", split(&V::Num(1.0), None).is_err()),
+        ("join [] = \"\"", matches!(join(&v("A0"), None), Ok(V::Str(s)) if s.is_empty())),
+        ("join of an array with a non-string is an error", join(&v("A1"), None).is_err()),
+        ("join of a non-array is an error", join(&V::Str("x".into()), None).is_err()),
+        ("cast \"12.5\" = 12.5", matches!(cast(&V::Str("12.5".into()), None), Ok(V::Num(x)) if x == 12.5)),
+        ("cast \"ff\" with 16 = 255", matches!(cast(&V::Str("ff".into()), Some(&V::Num(16.0))), Ok(V::Num(x)) if x == 255.0)),
+        ("cast \"zz\" = error", cast(&V::Str("zz".into()), None).is_err()),
+        ("cast 65 = \"A\"", matches!(cast(&V::Num(65.0), None), Ok(V::Str(s)) if s == "A")),
+        ("cast 65 with a parameter = error", cast(&V::Num(65.0), Some(&V::Num(2.0))).is_err()),
+        ("cast 1.5 / -1 / 0xD800 = error", cast(&V::Num(1.5), None).is_err() && cast(&V::Num(-1.0), None).is_err() && cast(&V::Num(55296.0), None).is_err()),
+        ("cast null = error", cast(&V::Null, None).is_err()),
+    ];
+    for (what, ok) in checks {
+        n += 1;
+        if !ok {
+            fail(what.to_string());
+        }
+    }
+    // precedence ladder against hand-computed trees
+    {
+        use super::grammar::{climb, Fam};
+        use super::rast::{Expr, Ident, Name, Prim};
+        let nm = |s: &str| Expr::Prim(Prim::Ident(Ident::Name(Name::Simple(s.into()))));
+        let t = climb(vec![nm("a"), nm("b"), nm("c")], &[(BinOp::Plus, Fam::Add, vec![]), (BinOp::Times, Fam::Mul, vec![])]);
+        let want = Expr::Bin(BinOp::Plus, Box::new(nm("a")), vec![Expr::Bin(BinOp::Times, Box::new(nm("b")), vec![nm("c")])]);
+        n += 1;
+        if t != Some(want) {
+            fail("a + b * c must be a + (b * c)".into());
+        }
+        let t = climb(vec![nm("a"), nm("b"), nm("c")], &[(BinOp::Minus, Fam::Add, vec![]), (BinOp::Minus, Fam::Add, vec![])]);
+        let want = Expr::Bin(BinOp::Minus, Box::new(Expr::Bin(BinOp::Minus, Box::new(nm("a")), vec![nm("b")])), vec![nm("c")]);
+        n += 1;
+        if t != Some(want) {
+            fail("a - b - c must be (a - b) - c".into());
+        }
+        n += 1;
+        if climb(vec![nm("a"), nm("b"), nm("c")], &[(BinOp::Eq, Fam::IsCmp, vec![]), (BinOp::Gt, Fam::SymCmp, vec![])]).is_some() {
+            fail("`a is b > c` must be rejected by the reference grammar".into());
+        }
+    }
+    // hash-seed control
+    {
+        use crate::engine::seed::with_seed;
+        let order = |seed: u64| {
+            with_seed(seed, || {
+                let mut m = std::collections::HashMap::new();
+                for k in ["p", "q", "r", "s"] {
+                    m.insert(k, 1);
+                }
+                m.keys().cloned().collect::<Vec<_>>().join("")
+            })
+            .unwrap()
+        };
+        let a = order(7);
+        let b = order(7);
+        let distinct: std::collections::BTreeSet<String> = (0..32).map(order).collect();
+        n += 2;
+        if a != b {
+            fail(format!("hash-seed control: the same seed gave two iteration orders ({} / {})", a, b));
+        }
+        if distinct.len() < 6 {
+            fail(format!("hash-seed control: 32 seeds reached only {} iteration orders", distinct.len()));
+        }
+    }
+    // corpus parses; generator names are not keywords
+    for p in crate::props::corpus::VALID {
+        n += 1;
+        if let Err(e) = rrss::frontend::parser::parse(p) {
+            fail(format!("corpus program does not parse: {} — {:?}", e, p));
+        }
+    }
+    for name in ["x", "y", "z", "u", "v", "w", "q", "c", "d", "k", "j", "m", "s", "zed", "yod", "qux", "fun", "gun", "hun", "two", "nev", "vm", "vn", "vb", "vz", "vf", "vg", "vh", "vx", "se", "sa", "sn", "ae", "ar", "ad", "ea", "ne", "tv", "cn", "dd", "wx", "wy", "wz", "mu", "élan", "über", "ñu"] {
+        n += 1;
+        let toks: Vec<_> = rrss::frontend::lexer::Lexer::new(name).collect();
+        if toks.len() != 1 || !toks[0].id.is_word() {
+            fail(format!("generator name {:?} is not a plain word token: {:?}", name, toks.iter().map(|t| t.id).collect::<Vec<_>>()));
+        }
+    }
+    if bad == 0 {
+        println!("selftest ({} build): {} checks ok", crate::engine::config_name(), n);
+        0
+    } else {
+        eprintln!("selftest: {} of {} checks failed", bad, n);
+        2
+    }
 }
